@@ -24,6 +24,21 @@ def is_tag(kind, t):
 class ValueOps:
     """mixin; expects self.st (State), self.repo (Repo), self.schema"""
 
+    def share(self, sv, name='t'):
+        """name a large term once (term sharing keeps the VC text small)"""
+        st = self.st
+        if sv is None or sv.kind not in ('str', 'int', 'bool') or sv.term is None or len(sv.term) < 240 \
+                or st.decls.bound or sv.is_const:
+            return sv
+        sort = {'str': 'String', 'int': 'Int', 'bool': 'Bool'}[sv.kind]
+        key = ('share', sv.term)
+        c = self.share_cache.get(key)
+        if c is None:
+            c = st.decls.const('sh_' + name, sort)
+            self.share_cache[key] = c
+        st.assume(mk_eq(c, sv.term), 'def')
+        return SV(sv.kind, c, sv.ty)
+
     def fail(self, exc, msg, lineno=0):
         """a point where python raises `exc`: allowed exit if the contract lists it, else an obligation"""
         if exc in getattr(self, 'cur_raises', {}) and not self.spec_mode:
